@@ -522,6 +522,9 @@ func (cr *cliRun) invariant(when string, final bool) {
 }
 
 func runCli(e *env) {
+	if e.sc.Family == "clifaultenum" {
+		e.probe(fmt.Sprintf("faultpoint %03d", e.sc.Seed%CliFaultSpace))
+	}
 	cr := &cliRun{e: e, handed: map[uint64]*spb.AFTOperation{}, inQ: map[uint64]bool{}, nextID: 1, elec: 1}
 	cr.srv = &stubServer{e: e, fib: e.sc.Cfg.FIBAck, maxBatch: 1, terminal: map[uint64]spb.AFTResult_Status{}, ribSent: map[uint64]bool{}, opsSeen: map[uint64]*spb.AFTOperation{}, violIdx: -1, lastTermIdx: -1}
 	cr.newClient()
